@@ -21,12 +21,19 @@ def units_stream(name, fields, **kw):
         # C13 and C14 project different fields of the same run: share it (keyed by the cases, /repo's sources and the runner)
         from lib.emit import _hash_inputs
         key = _hash_inputs("units")
+        # the main run (after a decoy generation, see genrun) and, for the multi-field and grouped units, a SECOND PROCESS that
+        # has generated nothing else before: the sources (numbering normalised, field srchash) must be the same - what is
+        # emitted for a declaration set must not depend on what the process generated earlier.  lib/hist.py merges the two.
+        envs = "GENRUN_MODCACHE=%s GENRUN_GOPATH=%s GO111MODULE=off" % (modcache, gopath)
         st.cmd = ("k={cache}/units/%s-$(sha1sum < {cases} | cut -c1-16).obs; mkdir -p {cache}/units; "
                   "if [ -f $k ]; then cp $k {obs}; exit 0; fi; "
-                  "rm -rf {wd}/gp && mkdir -p {wd}/gp && GENRUN_MODCACHE=%s GENRUN_GOPATH=%s GOPATH={wd}/gp GO111MODULE=off "
-                  "GENRUN_BUILDLOG={wd}/build.log {root}/build/genrun {wd}/gp {repo} < {cases} > {obs}; rc=$?; rm -rf {wd}/gp; "
-                  "if [ $rc = 0 ]; then rm -f {cache}/units/*.obs; cp {obs} $k; fi; exit $rc"
-                  % (key, modcache, gopath))
+                  "rm -rf {wd}/gp && mkdir -p {wd}/gp && " + envs + " GOPATH={wd}/gp "
+                  "GENRUN_BUILDLOG={wd}/build.log {root}/build/genrun {wd}/gp {repo} < {cases} > {obs}.main; rc=$?; rm -rf {wd}/gp; "
+                  "[ $rc = 0 ] || exit $rc; "
+                  "grep -P '^[MG][A-Z0-9]*\\t' {cases} > {wd}/fresh.cases; rm -rf {wd}/gp2 && mkdir -p {wd}/gp2 && " + envs +
+                  " GOPATH={wd}/gp2 GENRUN_NODECOY=1 GENRUN_HASHONLY=1 {root}/build/genrun {wd}/gp2 {repo} < {wd}/fresh.cases > {obs}.fresh; "
+                  "rc=$?; rm -rf {wd}/gp2; [ $rc = 0 ] || exit $rc; "
+                  "python3 {root}/lib/hist.py {obs}.main {obs}.fresh > {obs} && rm -f {cache}/units/*.obs && cp {obs} $k") % key
         return None
     st.prepare = prepare
     return st
